@@ -22,6 +22,7 @@ import (
 	"os/exec"
 	"path/filepath"
 	"regexp"
+	"sort"
 	"strings"
 	"sync"
 
@@ -126,6 +127,13 @@ func main() {
 	case "minigo-neg":
 		cfg.Slices, cfg.Maps, cfg.Structs, cfg.Strings, cfg.Methods, cfg.Widths, cfg.Consts, cfg.MultiRes = false, false, false, false, false, false, false, false
 		cfg.Loops, cfg.NoBlocks, cfg.NoCompl, cfg.NoCalls, cfg.Neg = false, true, true, true, true
+	case "lexical":
+		cfg.Funcs = 4
+		cfg.Logs = true
+		cfg.Comments = []string{"plain words", "an opener (* inside", "a closer *) inside", "both (* and *) here", "(*", "*)", "(*)", "*)(*",
+			"*) Definition evil := #0. (*", "one \" quote", "two \"quoted\" words", "\"", "\"\"", "a \" and (* then *) and \" again", "first line\nsecond *) line\nthird (* line",
+			"ends with (", "ends with *", "( * spaced * )", "unicode → λ ∀ é", "back\\slash and \\\" escaped", "tab\there", "percent %d %s", "(* (* nested *) *)", "*)*)*)", "((((*"}
+		cfg.StrLits = []string{"", "(*", "*)", "(* x *)", "a (* b", "back\\slash", "tab\there", "unicode → é", "%d percent", "semi; colon:", "( * )", "'single'", "`tick`", "#(str", "Definition x := 1."}
 	case "order":
 		cfg.Funcs = 6
 	case "inject":
@@ -196,6 +204,14 @@ func main() {
 		} else {
 			os.WriteFile(filepath.Join(dir, "p.go"), []byte(src), 0o644)
 		}
+		if *profile == "lexical" {
+			// the same package without comments, doc comments and logging calls
+			progen.PrintComments = false
+			bdir := filepath.Join(mod, "b", name)
+			os.MkdirAll(bdir, 0o755)
+			os.WriteFile(filepath.Join(bdir, "p.go"), []byte(pkg.GoFile()), 0o644)
+			progen.PrintComments = true
+		}
 		cases = append(cases, &caseT{name: name, dir: "g/" + name, pkg: pkg, src: src, native: map[int]string{}, model: map[int]string{}})
 	}
 	for _, cs := range cases {
@@ -256,6 +272,15 @@ func main() {
 	pat := "./g/..."
 	if catalogue {
 		pat = "./c/..."
+	}
+	if *profile == "lexical" {
+		// the baseline packages, and the commented ones under each flag
+		for _, v := range [][]string{{"out", "./b/..."}, {"outT", "-typecheck", "./g/..."}, {"outS", "-source-comments", "./g/..."}, {"outK", "-skip-interfaces", "./g/..."}, {"outA", "-typecheck", "-source-comments", "-skip-interfaces", "./g/..."}} {
+			c2 := exec.Command(*goose, append([]string{"-out", filepath.Join(root, v[0])}, v[1:]...)...)
+			c2.Dir = mod
+			c2.Env = goEnv()
+			c2.Run()
+		}
 	}
 	gcmd := exec.Command(*goose, "-out", out, "-ignore-errors", pat)
 	gcmd.Dir = mod
@@ -358,6 +383,9 @@ func main() {
 			}
 			if *profile == "order" {
 				c.declProblems = declChecks(c.pkg, string(vtxt))
+			}
+			if *profile == "lexical" {
+				c.declProblems = lexicalChecks(c, root, coqflags)
 			}
 		}()
 	}
@@ -577,4 +605,67 @@ func declChecks(pkg *progen.Package, v string) []string {
 		}
 	}
 	return probs
+}
+
+// lexicalChecks: the definitions Coq sees for the commented package equal, as
+// terms, those of the same package without comments and logging calls, under
+// every flag combination; every variant compiles.
+func lexicalChecks(c *caseT, root string, coqflags []string) []string {
+	var probs []string
+	variants := []string{"outT", "outS", "outK", "outA"}
+	flags := append([]string{}, coqflags...)
+	// baseline: out/gen/b/<name>.v (logical Goose.gen.b.<name>)
+	bf := filepath.Join(root, "out", "gen", "b", c.name+".v")
+	if o, err := exec.Command("coqc", append(flags, bf)...).CombinedOutput(); err != nil {
+		return []string{"the baseline (comment-free) package does not compile: " + string(o)}
+	}
+	for _, v := range variants {
+		flags = append(flags, "-Q", filepath.Join(root, v), "Goose"+v[3:])
+		vf := filepath.Join(root, v, "gen", "g", c.name+".v")
+		if o, err := exec.Command("coqc", append(flags, vf)...).CombinedOutput(); err != nil {
+			probs = append(probs, "variant "+v+" does not compile: "+firstN(string(o), 400))
+		}
+	}
+	if len(probs) > 0 {
+		return probs
+	}
+	var b strings.Builder
+	fmt.Fprintf(&b, "From Goose Require gen.g.%s gen.b.%s.\n", c.name, c.name)
+	for _, v := range variants {
+		fmt.Fprintf(&b, "From Goose%s Require gen.g.%s.\n", v[3:], c.name)
+	}
+	var names []string
+	for n := range c.defs {
+		names = append(names, n)
+	}
+	sort.Strings(names)
+	for _, n := range names {
+		fmt.Fprintf(&b, "Eval vm_compute in \"MARK base %s\"%%string.\nGoal Goose.gen.g.%s.%s = Goose.gen.b.%s.%s. Proof. reflexivity. Qed.\n", n, c.name, n, c.name, n)
+		for _, v := range variants {
+			fmt.Fprintf(&b, "Eval vm_compute in \"MARK %s %s\"%%string.\nGoal Goose.gen.g.%s.%s = Goose%s.gen.g.%s.%s. Proof. reflexivity. Qed.\n", v, n, c.name, n, v[3:], c.name, n)
+		}
+	}
+	cmd := exec.Command("timeout", "300", "coqtop", "-q")
+	cmd.Args = append(cmd.Args, flags...)
+	cmd.Stdin = strings.NewReader("From Coq Require Import String.\n" + b.String())
+	o, _ := cmd.CombinedOutput()
+	os.WriteFile(filepath.Join(root, "out", "lex_"+c.name+".v"), []byte(b.String()), 0o644)
+	parts := strings.Split(string(o), "\"MARK ")
+	if len(parts)-1 != len(names)*(1+len(variants)) {
+		probs = append(probs, fmt.Sprintf("comparison did not run to the end (%d of %d): %s", len(parts)-1, len(names)*(1+len(variants)), firstN(string(o), 600)))
+	}
+	for _, p := range parts[1:] {
+		label := p[:strings.Index(p, "\"")]
+		if strings.Contains(p, "Error") {
+			probs = append(probs, "definition differs: "+label+": "+firstN(p[strings.Index(p, "Error"):], 300))
+		}
+	}
+	return probs
+}
+
+func firstN(s string, n int) string {
+	if len(s) > n {
+		return s[:n]
+	}
+	return s
 }
